@@ -987,7 +987,7 @@ MANIFEST = {
             "the loop over the mask-selected rows is re-indexed to sum_j [A_j] ...; N_A = number selected), Sq = |FFT|^2 summed over "
             "components = |sum|^2 / N_A, every value rounded to 8 decimals; second table = per distinct rounded |q| the mean of the rounded "
             "Sq values; reductions: a species selection gives |rho_a|^2 / N_a and A = 1 / all-True gives |rho|^2 / N of the C04 density-mode "
-            "definition (before rounding).",
+            "definition (before rounding). Extension round: a real scalar stored in an integer dtype is the float-scalar case (not a selection), proved with integer-sum specs; conditional_sq leaves the caller's wave-vector and condition arrays unwritten (frame clause; integer and float64 wave-vector arrays).",
     "note": "floats as reals (A1); assumed library contracts: np.histogram (weighted), boolean-mask selection enumeration + Sigma re-indexing, "
             "pandas frame construction / column update / join / round / groupby-mean, np.linalg.norm, exp(ix) = cos x + i sin x, "
             "remove_pbc callee contract (C02); preconditions N >= 2 (g), Lmin >= 2 rdelta (at least one bin), N_A >= 1, A not constant for "
